@@ -41,6 +41,8 @@ package utils
 //@   dead returns 4
 //@   ensures err != nil ==> result == nil
 //@   ensures err == nil ==> result != nil && fresh(PS(result)) && PS(result).stdAddress != nil
+// a freshly parsed script has empty caches
+//@   ensures[C16] err == nil ==> PS(result).stdEncodeAddr == "" && PS(result).secondEncodeAddr == "" && PS(result).stdScriptAddr == nil && PS(result).secondScriptAddr == nil
 //@   ensures[C16] clsOf(pkScript) != mathint(txscript.WitnessV0ScriptHashTy) && clsOf(pkScript) != mathint(txscript.StakingScriptHashTy) && clsOf(pkScript) != mathint(txscript.BindingScriptHashTy) ==> err != nil
 //@   ensures[C16] err == nil ==> mathint(PS(result).scriptClass) == clsOf(pkScript) && addrKind(PS(result).stdAddress) == 1 && addrScript(PS(result).stdAddress) == ghosts("scriptHash32", strOf(pkScript))
 //@   ensures[C16] clsOf(pkScript) == mathint(txscript.WitnessV0ScriptHashTy) ==> err == nil && PS(result).maturity == 0 && PS(result).addressClass == massutil.AddressClassWitnessV0 && PS(result).secondAddress == nil
@@ -76,3 +78,28 @@ package utils
 //@   props C16
 //@   requires s != nil
 //@   ensures result == s.scriptClass
+
+// ---- C16: the lazily cached readings of a parsed script.  psCacheWF: each cache is either still empty or holds the
+// reading of ITS OWN address object; every accessor returns the reading of the address it is named after, whatever
+// the order in which the accessors are called.
+//@ define psCacheWF(s) = (s != nil && s.stdAddress != nil && (s.stdEncodeAddr == "" || s.stdEncodeAddr == ghosts("addrEnc", s.stdAddress)) && (s.secondEncodeAddr == "" || (s.secondAddress != nil && s.secondEncodeAddr == ghosts("addrEnc", s.secondAddress))) && (s.stdScriptAddr == nil || strOf(s.stdScriptAddr) == addrScript(s.stdAddress)) && (s.secondScriptAddr == nil || (s.secondAddress != nil && strOf(s.secondScriptAddr) == addrScript(s.secondAddress))))
+//@ func (*pkScriptInfo).StdEncodeAddress
+//@   props C16 C19
+//@   requires psCacheWF(s)
+//@   modifies &s.stdEncodeAddr
+//@   ensures[C16] psCacheWF(s) && result == ghosts("addrEnc", s.stdAddress)
+//@ func (*pkScriptInfo).SecondEncodeAddress
+//@   props C16 C19
+//@   requires psCacheWF(s) && s.secondAddress != nil
+//@   modifies &s.secondEncodeAddr
+//@   ensures[C16] psCacheWF(s) && result == ghosts("addrEnc", s.secondAddress)
+//@ func (*pkScriptInfo).StdScriptAddress
+//@   props C16 C19
+//@   requires psCacheWF(s)
+//@   modifies &s.stdScriptAddr
+//@   ensures[C16] psCacheWF(s) && strOf(result) == addrScript(s.stdAddress)
+//@ func (*pkScriptInfo).SecondScriptAddress
+//@   props C16 C19
+//@   requires psCacheWF(s) && s.secondAddress != nil
+//@   modifies &s.secondScriptAddr
+//@   ensures[C16] psCacheWF(s) && strOf(result) == addrScript(s.secondAddress)
